@@ -10,6 +10,74 @@ MUTATORS = r"(SharedHistory::update$|SharedHistory::mark_update_done$|NotifySend
            r"PayloadHistory::(push_delta|update|set_current)|SharedHistory::write$)"
 
 
+def check_task_failures_marked(res, E):
+    """Run::process decides success by the had_err flag alone: every worker task (process_tal_task,
+    process_ca_task) that ends with Err(Failed) must have marked the run failed - through run_failed, by having
+    seen had_err set, or by passing on the failure of a nested process_ca_task (induction)."""
+    from gating import is_err, must
+    n = 0
+    for fn_ in ("process_tal_task", "process_ca_task"):
+        body = E.prog.find("src/engine.rs", "Run", fn_)
+        E.inline_map_err = True
+        try:
+            paths = E.explore(body, max_visits=2, nomut=[r"."])
+        finally:
+            E.inline_map_err = False
+        res.functions.append("routinator::engine::Run::%s (MIR, %d blocks): failed tasks mark the run failed" % (fn_, len(body.blocks)))
+        for i, p in enumerate(paths):
+            if p.kind != "return":
+                continue
+            d = p.ret.get(("disc",))
+            if d is None or not must(E, p, d == 1):
+                continue
+            n += 1
+            calls = [e for e in p.events if e.kind == "call"]
+            marked = any(re.search(r"Run::<.*>::run_failed$|Run::run_failed$|(^|::)run_failed$", e.name) for e in calls)
+            # had_err observed set
+            for e in calls:
+                if re.search(r"Atomic(Bool)?(<bool>)?::load$", e.name):
+                    v = e.dest.get(()) if e.dest else None
+                    if mir.is_z(v) and must(E, p, v):
+                        marked = True
+            # the failure is the one of a nested task (which marked it, by induction over the task tree)
+            failing = [e for e in calls if re.search(r"Result<", (e.dest.get(()).ty if e.dest and isinstance(e.dest.get(()), mir.Opq) else ""))
+                       and is_err(E, p, e) is not None and must(E, p, is_err(E, p, e))]
+            if failing and re.search(r"process_(ca|tal)_task$", failing[-1].name):
+                marked = True
+            if not marked:
+                src = failing[-1].name if failing else "an unknown source"
+                key = "mir:task-failure-not-marked:%s:%s" % (fn_, src.split("::")[-1])
+                if any(v["key"] == key for v in res.violations):
+                    continue
+                ok, note = native_unmarked(res)
+                fn = mprop.write_cex(res, "unmarked_failure_%s_%d" % (fn_, i), p, E,
+                                     "Run::%s returns Err(Failed) after %s failed, without run_failed(): the worker thread stops, "
+                                     "had_err stays false and Run::process reports success. %s" % (fn_, src, note))
+                if ok is False:
+                    res.inconclusive.append("unmarked task failure (%s after %s) not reproduced natively" % (fn_, src))
+                else:
+                    res.violation(key, "a validation task that fails (%s in %s) does not mark the run as failed: the run is "
+                                  "reported successful and its partial result replaces the served data%s"
+                                  % (src, fn_, "; reproduced natively" if ok else ""), fn)
+    res.distinct += n
+    if n < 3:
+        res.inconclusive.append("vacuity: only %d failing task paths" % n)
+
+
+_NATIVE = {}
+
+
+def native_unmarked(res):
+    if "r" not in _NATIVE:
+        import nativetest
+        failed, passed, out = nativetest.run_native_test("native_c33", "c33_native")
+        obs = re.findall(r"C33-NATIVE (.*)", out)
+        res.extra.setdefault("native_replays", []).append({"test": "c33_native_*", "failed": failed, "observed": obs[:3] or [out[-300:]]})
+        bad = [o for o in obs if "SUCCESS" in o]
+        _NATIVE["r"] = (True, "Native replay: " + "; ".join(bad or obs)) if failed else ((False, "native tests passed") if passed else (None, "native replay unavailable"))
+    return _NATIVE["r"]
+
+
 def run(res, tier):
     E = mprop.engine(res)
     res.extra.setdefault("source_files_sha256", {}).update(
@@ -115,4 +183,5 @@ def run(res, tier):
     ]
     res.rule = ("one case = one feasible MIR path of process_once classified by the forced outcome of the validation "
                 "run; assertion: no history-mutating or notifying event on a failed-run path; evaluations = z3 queries")
+    check_task_failures_marked(res, E)
     mprop.finish_engine(res, E)
